@@ -1,5 +1,6 @@
 import ParryModel.Proto
 import ParryModel.C11.Model
+import ParryModel.C11.PseudoNormals
 /-!
 C11 protocol handlers (`hist3`, `hist2`): the model of the TriMesh state machine run on an operation
 history at `Float` (bit-exact print of every state), and the oracle that re-judges the real mesh's state
@@ -14,35 +15,13 @@ open Model Model.TM Proto
 
 /-! ## geometry at `Float` -/
 
-/-- nalgebra `Matrix::angle` -/
-def angle3 (u v : V3 Float) : Float :=
-  let prod := u.dot v
-  let n1 := u.norm
-  let n2 := v.norm
-  if n1 == 0 || n2 == 0 then 0 else
-    let cang := prod / (n1 * n2)
-    Float.acos (nclamp cang (-1) 1)
+/-- the 3-D geometry at `Float`: the scalar-polymorphic `geoK` of `C11/PseudoNormals.lean` (nalgebra `Matrix::angle`,
+`Triangle::normal()`, the three angle weights) with the libm arc-cosine -/
+def angle3 (u v : V3 Float) : Float := angleK Float.acos u v
 
-/-- `f64::EPSILON` (`DEFAULT_EPSILON`) -/
-def feps : Float := Float.ofBits 0x3CB0000000000000
+def contrib3 (a b c : V3 Float) : Option (V3 Float × V3 Float × V3 Float × V3 Float) := contribK Float.acos a b c
 
-/-- `Triangle::normal()` + the three `angle`s of `compute_pseudo_normals` -/
-def contrib3 (a b c : V3 Float) : Option (V3 Float × V3 Float × V3 Float × V3 Float) :=
-  let sn := (b.sub a).cross (c.sub a)
-  let n := sn.norm
-  if n ≤ feps then none else
-    let nrm := sn.sdiv n
-    let ang1 := angle3 (b.sub a) (c.sub a)
-    let ang2 := angle3 (a.sub b) (c.sub b)
-    let ang3 := angle3 (b.sub c) (a.sub c)
-    some (nrm, nrm.smul ang1, nrm.smul ang2, nrm.smul ang3)
-
-instance geo3 : Geo (V3 Float) (V3 Float) where
-  veq p q := p.x == q.x && p.y == q.y && p.z == q.z
-  nzero := ⟨0, 0, 0⟩
-  nadd := V3.add
-  nneg := V3.neg
-  contrib := contrib3
+instance geo3 : Geo (V3 Float) (V3 Float) := geoK Float.acos
 
 /-- 2-D: no pseudo-normals -/
 instance geo2 : Geo (V2 Float) Unit where
